@@ -103,7 +103,16 @@ def make_twin():
     def t_bf(n, edges, start):
         r = bf(start, list(edges), n, backend="python")
         if r.status == Status.UNBOUNDED:
-            return {"has_negative_cycle": True, "distances": [], "predecessors": [], "iterations": r.iterations}
+            # same shape as the kernel: full-length vectors (finite for nodes reachable from start, inf otherwise); the values are unspecified
+            seen, todo = {start}, [start]
+            while todo:
+                u = todo.pop()
+                for (a, b, _w) in edges:
+                    if a == u and b not in seen:
+                        seen.add(b)
+                        todo.append(b)
+            return {"has_negative_cycle": True, "distances": [0.0 if i in seen else INF for i in range(n)], "predecessors": [-1] * n,
+                    "iterations": r.iterations}
         dist = [r.solution.get(i, INF) for i in range(n)]
         pred = [-1] * n
         for v in range(n):
